@@ -176,6 +176,9 @@ class Ctx:
         cmd.append(module + ".tla")
         e = dict(os.environ)
         jo = "-Djava.io.tmpdir=%s -Xss64m -Xmx%s" % (d, heap or "6g")
+        if workers == 1:
+            # single-threaded runs (trace validation) are started side by side: keep each JVM's helper threads few
+            jo += " -XX:ParallelGCThreads=2 -XX:ConcGCThreads=1 -XX:CICompilerCount=2"
         e["JAVA_TOOL_OPTIONS"] = (e.get("JAVA_TOOL_OPTIONS", "") + " " + jo).strip()
         t0 = time.time()
         try:
